@@ -17,7 +17,6 @@ TRUSTED = [
 ASSUMPTIONS = [
     "make([]byte, n) panics exactly when n < 0 or n > 2^48 (linux/amd64 maxAlloc); an allocation the runtime accepts but the machine "
     "cannot satisfy is a fatal error outside the model (unreachable in the fixed code: n <= 2^25)",
-    "RawJSON: totality is proved only up to the scanner's fuel lemma (rawjson_never_panics_partial)",
 ]
 
 RULE = ("arbitrary streams through the real Recv of Line/Split/StrictHeader/Header/LSP/RawJSON until the first repeated bare error: "
